@@ -101,4 +101,56 @@ def readBlocks (temp : Bytes) (ss : SubStream) : Bytes :=
 def Writer.readback (w : Writer) : List (String × Bytes) :=
   w.streams.map fun (name, ss) => (name, readBlocks w.temp ss.close)
 
+
+/-! ### SubFile (the member view used when the compound file is not memory-mapped)
+
+`SubFile(parentfile, offset, length)`: `_pos` is whatever `seek` last set (any integer). -/
+
+structure SubFile where
+  offset : Nat
+  length : Nat
+  pos : Int
+  deriving Repr, DecidableEq
+
+/-- `SubFile.read(size)` (`size = none` is `read()`): at most what is left of the member, `_pos`
+    advanced by the size asked of the parent.  `none` = the parent's `seek` raises (negative
+    position; only after a `seek` to before the member). -/
+def SubFile.read (parent : Bytes) (s : SubFile) (size : Option Int) : Option (Bytes × SubFile) :=
+  let avail : Int := (s.length : Int) - s.pos
+  let sz : Int := match size with
+    | none => avail
+    | some n => min n avail
+  let sz : Int := if sz < 0 then 0 else sz
+  if sz > 0 then
+    let start : Int := (s.offset : Int) + s.pos
+    if start < 0 then none
+    else some ((parent.drop start.toNat).take sz.toNat, { s with pos := s.pos + sz })
+  else some ([], s)
+
+/-- `SubFile.seek(where, whence)`: absolute, relative, or "from the end" — which this class computes
+    as `length - where` (`io` files use `length + where`; the two agree for `where = 0`).  Another
+    `whence` is `ValueError` (`none`). -/
+def SubFile.seek (s : SubFile) (wh : Int) (whence : Nat) : Option SubFile :=
+  match whence with
+  | 0 => some { s with pos := wh }
+  | 1 => some { s with pos := s.pos + wh }
+  | 2 => some { s with pos := (s.length : Int) - wh }
+  | _ => none
+
+/-- `SubFile.tell()`. -/
+def SubFile.tell (s : SubFile) : Int := s.pos
+
+/-- `while True: chunk = f.read(n); if not chunk: break; out += chunk` (what `copyfileobj` and the
+    buffered readers do); the fuel bounds the number of iterations (`length + 1` suffices). -/
+def SubFile.readChunks (parent : Bytes) (n : Int) : SubFile → Nat → Option (Bytes × SubFile)
+  | s, 0 => some ([], s)
+  | s, fuel + 1 =>
+    match s.read parent (some n) with
+    | none => none
+    | some (chunk, s') =>
+      if chunk.isEmpty then some ([], s')
+      else match SubFile.readChunks parent n s' fuel with
+        | none => none
+        | some (rest, s'') => some (chunk ++ rest, s'')
+
 end WM.Compound
